@@ -168,6 +168,7 @@ def main(argv=None):
     ap.add_argument('--only', help='regex on shard names (debugging; evidence marked partial)')
     ap.add_argument('--jobs', type=int, default=int(os.environ.get('VERIF_JOBS', '0')) or None)
     ap.add_argument('--no-evidence', action='store_true')
+    ap.add_argument('--budget', type=float, help='wall-time cap in seconds (default: per tier / harness)')
     args = ap.parse_args(argv)
     prop = args.prop
     sys.path.insert(0, ROOT)
@@ -180,6 +181,8 @@ def main(argv=None):
     tier = args.tier
     shards = mod.shards(tier)
     budget = getattr(mod, 'BUDGET_S', {}).get(tier, 600 if tier == 'quick' else 3600)
+    if args.budget:
+        budget = args.budget
     deadline = time.monotonic() + budget
     sel = [i for i, s in enumerate(shards) if not args.only or re.search(args.only, s['name'])]
     # twin + profile on the first shard of every scenario function
